@@ -29,3 +29,4 @@ Print Assumptions C13_norm_maps_perm.
 Theorem C13_token_function : forall jprint sign (j j' : json),
   j = j' -> token_of jprint sign j = token_of jprint sign j'.
 Proof. exact token_function. Qed.
+Print Assumptions C13_token_function.
